@@ -179,7 +179,7 @@ func BankVMProfile(seed int64, out *Recorder, nOps int) *Chain {
 			to := c.Accts[rng.Intn(nA)].Addr
 			toKind := ""
 			if rng.Intn(4) == 0 {
-				if d := pickContract("stop", "revert", "store", "suicide", "log"); d != nil {
+				if d := pickContract("stop", "revert", "store", "suicide", "log", "loop"); d != nil {
 					to, toKind = d.Addr, d.Kind
 				}
 			}
